@@ -8,6 +8,8 @@ import numpy as np
 def py_rowsel(r, variant=0):
     t = r["t"]
     if t == "int":
+        if variant % 7 == 5 and -128 <= r["i"] <= 127:
+            return np.int8(r["i"])                  # a narrow numpy integer scalar
         return int(r["i"]) if variant % 2 == 0 else np.int64(r["i"])
     if t == "slice":
         return slice(r["a"], r["b"], r["k"])
@@ -22,6 +24,8 @@ def py_rowsel(r, variant=0):
 
 def py_colsel(c, variant=0):
     if c["t"] == "int":
+        if variant % 7 in (5, 6) and -2 ** 15 <= c["i"] < 2 ** 15:
+            return np.int8(c["i"]) if -128 <= c["i"] <= 127 else np.int16(c["i"])     # narrow numpy integer scalars
         return int(c["i"])
     if c["t"] == "slice":
         if c["a"] is None and c["b"] is None and c["k"] is None and variant % 3 == 2:
